@@ -37,6 +37,9 @@ var repoDir = "/repo"
 // properties served by the worker built from package main of the server
 var mainProps = map[string]bool{"C09": true, "C10": true, "C11": true}
 
+// properties that additionally have units in the package-main worker (registered there under this name)
+var alsoMain = map[string]string{"C07": "C07main"}
+
 type knownEntry struct {
 	Status   string `json:"status"` // "known" | "fixed"
 	Property string `json:"property"`
@@ -225,7 +228,17 @@ func main() {
 	bin := build(mainProps[prop], *verbose)
 
 	if *replay != "" {
-		r, err := runWorker(bin, []string{"-prop", prop, "-tier", *tier, "-replay", *replay, "-seed", fmt.Sprint(seed)}, 5*time.Minute)
+		rprop := prop
+		if b, err := os.ReadFile(*replay); err == nil {
+			var f engine.Finding
+			if json.Unmarshal(b, &f) == nil && f.Property != "" && f.Property != prop {
+				rprop = f.Property
+				if alsoMain[prop] == rprop {
+					bin = build(true, *verbose)
+				}
+			}
+		}
+		r, err := runWorker(bin, []string{"-prop", rprop, "-tier", *tier, "-replay", *replay, "-seed", fmt.Sprint(seed)}, 5*time.Minute)
 		if err != nil {
 			broken("%v", err)
 		}
@@ -244,16 +257,35 @@ func main() {
 
 	// run the shards
 	n := *shards
-	results := make([]*engine.Result, n)
-	errs := make([]error, n)
-	var wg sync.WaitGroup
+	type job struct {
+		bin, prop string
+		shard     int
+	}
+	var jobs []job
 	for i := 0; i < n; i++ {
+		jobs = append(jobs, job{bin, prop, i})
+	}
+	binOf := map[string]string{prop: bin}
+	if mp, ok := alsoMain[prop]; ok {
+		mb := build(true, *verbose)
+		binOf[mp] = mb
+		for i := 0; i < n; i++ {
+			jobs = append(jobs, job{mb, mp, i})
+		}
+	}
+	results := make([]*engine.Result, len(jobs))
+	errs := make([]error, len(jobs))
+	var wg sync.WaitGroup
+	sem := make(chan struct{}, n)
+	for i, j := range jobs {
 		wg.Add(1)
-		go func(i int) {
+		go func(i int, j job) {
 			defer wg.Done()
-			args := []string{"-prop", prop, "-tier", *tier, "-shard", fmt.Sprint(i), "-nshards", fmt.Sprint(n), "-budget", budget.String(), "-seed", fmt.Sprint(seed)}
-			results[i], errs[i] = runWorker(bin, args, *budget+3*time.Minute)
-		}(i)
+			sem <- struct{}{}
+			defer func() { <-sem }()
+			args := []string{"-prop", j.prop, "-tier", *tier, "-shard", fmt.Sprint(j.shard), "-nshards", fmt.Sprint(n), "-budget", budget.String(), "-seed", fmt.Sprint(seed)}
+			results[i], errs[i] = runWorker(j.bin, args, *budget+3*time.Minute)
+		}(i, j)
 	}
 	wg.Wait()
 	for _, e := range errs {
@@ -320,7 +352,11 @@ func main() {
 		same := 0
 		var lastErr error
 		for k := 0; k < 5; k++ {
-			r, err := runWorker(bin, []string{"-prop", prop, "-tier", *tier, "-replay", path, "-seed", fmt.Sprint(seed)}, 5*time.Minute)
+			rb, rprop := bin, prop
+			if b, ok := binOf[f.Property]; ok {
+				rb, rprop = b, f.Property
+			}
+			r, err := runWorker(rb, []string{"-prop", rprop, "-tier", *tier, "-replay", path, "-seed", fmt.Sprint(seed)}, 5*time.Minute)
 			if err != nil {
 				lastErr = err
 				continue
